@@ -275,6 +275,10 @@ package graphalg
 //@ spec wfG(g graph.Graph) bool = g.NumNodes() >= 0 && (forall x in 0..g.NumNodes(), k in 0..len(g.Out(x)) :: 0 <= g.Out(x)[k] && g.Out(x)[k] < g.NumNodes())
 //@ spec allin(a []int, N int) bool = forall k in 0..len(a) :: 0 <= a[k] && a[k] < N
 
+// every node of the pre-order after position lo has a predecessor earlier in the
+// list, at or after lo (its parent in the depth-first tree)
+//@ spec hasEarlierParent(g graph.Graph, out []int, lo int, k int) bool = exists j in lo..k, e in 0..len(g.Out(out[j])) :: g.Out(out[j])[e] == out[k]
+
 //@ func PreOrder#lit1
 //@   model bv
 //@   abstract member
@@ -288,8 +292,11 @@ package graphalg
 //@   ensures [regions]  (region(out) == old(region(out)) || fresh(out)) && (region(visited.marks) == old(region(visited.marks)) || fresh(visited.marks))
 //@   ensures [graph]    wfG(g)
 //@   ensures [range]    allin(out, g.NumNodes())
+//@   ensures [parent]   forall k in old(len(out))+1..len(out) :: hasEarlierParent(g, out, old(len(out)), k)
+//@   ensures [closed]   forall k in old(len(out))..len(out), e int, x int, y int :: x == out[k] && 0 <= e && e < len(g.Out(x)) && y == old(g.Out(x)[e]) ==> member(*visited, y)
+//@   ensures [listed]   forall y int :: member(*visited, y) && !old(member(*visited, y)) ==> (exists k in old(len(out))..len(out) :: out[k] == y)
 //@   loop 1 (succ) modifies *visited, visited.marks[*], old(visited.marks)[*], out[*], old(out)[*]
-//@   loop 1 (succ) invariant wfG(g) && allin(out, g.NumNodes()) && visited != nil && len(out) > old(len(out)) && out[old(len(out))] == n && (forall k in 0..old(len(out)) :: out[k] == old(out[k])) && allmarked(*visited, out) && member(*visited, n) && nodup(out) && (forall j int :: old(member(*visited, j)) ==> member(*visited, j)) && (region(out) == old(region(out)) || fresh(out)) && (region(visited.marks) == old(region(visited.marks)) || fresh(visited.marks))
+//@   loop 1 (succ) invariant (forall k in old(len(out))+1..len(out) :: hasEarlierParent(g, out, old(len(out)), k)) && (forall k in old(len(out))+1..len(out), e int, x int, y int :: x == out[k] && 0 <= e && e < len(g.Out(x)) && y == old(g.Out(x)[e]) ==> member(*visited, y)) && (forall e in 0.._k, x int, y int :: x == n && y == old(g.Out(x)[e]) ==> member(*visited, y)) && (forall y int :: member(*visited, y) && !old(member(*visited, y)) ==> (exists k in old(len(out))..len(out) :: out[k] == y)) && wfG(g) && allin(out, g.NumNodes()) && visited != nil && len(out) > old(len(out)) && out[old(len(out))] == n && (forall k in 0..old(len(out)) :: out[k] == old(out[k])) && allmarked(*visited, out) && member(*visited, n) && nodup(out) && (forall j int :: old(member(*visited, j)) ==> member(*visited, j)) && (region(out) == old(region(out)) || fresh(out)) && (region(visited.marks) == old(region(visited.marks)) || fresh(visited.marks))
 //@   assigns *visited, visited.marks[*], out[*]
 
 //@ func PreOrder
@@ -298,6 +305,8 @@ package graphalg
 //@   requires 0 <= root && root < g.NumNodes() && wfG(g) && (forall x int :: !fresh(g.Out(x)))
 //@   ensures [root-first] len(result) >= 1 && result[0] == root
 //@   ensures [nodup]      nodup(result)
+//@   ensures [parent]     forall k in 1..len(result) :: hasEarlierParent(g, result, 0, k)
+//@   ensures [closed]     forall k in 0..len(result), e int, x int, y int :: x == result[k] && 0 <= e && e < len(g.Out(x)) && y == old(g.Out(x)[e]) ==> has(result, y)
 //@   ensures [range]      allin(result, g.NumNodes()) && fresh(result)
 //@   assigns nothing
 
@@ -320,8 +329,10 @@ package graphalg
 //@   ensures [graph]    wfG(g)
 //@   ensures [parent]   forall k in old(len(out))..len(out)-1 :: hasLaterParent(g, out, k)
 //@   ensures [range]    allin(out, g.NumNodes())
+//@   ensures [closed]   forall k in old(len(out))..len(out), e int, x int, y int :: x == out[k] && 0 <= e && e < len(g.Out(x)) && y == old(g.Out(x)[e]) ==> member(*visited, y)
+//@   ensures [listed]   forall y int :: member(*visited, y) && !old(member(*visited, y)) ==> (exists k in old(len(out))..len(out) :: out[k] == y)
 //@   loop 1 (succ) modifies *visited, visited.marks[*], old(visited.marks)[*], out[*], old(out)[*]
-//@   loop 1 (succ) invariant (forall k in old(len(out))..len(out) :: hasLaterParent(g, out, k) || (exists e in 0.._k :: g.Out(n)[e] == out[k])) && wfG(g) && allin(out, g.NumNodes()) && visited != nil && len(out) >= old(len(out)) && (forall k in 0..old(len(out)) :: out[k] == old(out[k])) && allmarked(*visited, out) && member(*visited, n) && nodup(out) && (forall j int :: old(member(*visited, j)) ==> member(*visited, j)) && (forall k in old(len(out))..len(out) :: out[k] != n) && (forall k in old(len(out))..len(out), j int :: j == out[k] ==> !old(member(*visited, j))) && (region(out) == old(region(out)) || fresh(out)) && (region(visited.marks) == old(region(visited.marks)) || fresh(visited.marks))
+//@   loop 1 (succ) invariant (forall k in old(len(out))..len(out), e int, x int, y int :: x == out[k] && 0 <= e && e < len(g.Out(x)) && y == old(g.Out(x)[e]) ==> member(*visited, y)) && (forall e in 0.._k, x int, y int :: x == n && y == old(g.Out(x)[e]) ==> member(*visited, y)) && (forall y int :: member(*visited, y) && !old(member(*visited, y)) && y != n ==> (exists k in old(len(out))..len(out) :: out[k] == y)) && (forall k in old(len(out))..len(out) :: hasLaterParent(g, out, k) || (exists e in 0.._k :: g.Out(n)[e] == out[k])) && wfG(g) && allin(out, g.NumNodes()) && visited != nil && len(out) >= old(len(out)) && (forall k in 0..old(len(out)) :: out[k] == old(out[k])) && allmarked(*visited, out) && member(*visited, n) && nodup(out) && (forall j int :: old(member(*visited, j)) ==> member(*visited, j)) && (forall k in old(len(out))..len(out) :: out[k] != n) && (forall k in old(len(out))..len(out), j int :: j == out[k] ==> !old(member(*visited, j))) && (region(out) == old(region(out)) || fresh(out)) && (region(visited.marks) == old(region(visited.marks)) || fresh(visited.marks))
 //@   assigns *visited, visited.marks[*], out[*]
 
 //@ func PostOrder
@@ -331,6 +342,7 @@ package graphalg
 //@   ensures [root-last] len(result) >= 1 && result[len(result)-1] == root
 //@   ensures [nodup]     nodup(result)
 //@   ensures [parent]    forall k in 0..len(result)-1 :: hasLaterParent(g, result, k)
+//@   ensures [closed]    forall k in 0..len(result), e int, x int, y int :: x == result[k] && 0 <= e && e < len(g.Out(x)) && y == old(g.Out(x)[e]) ==> has(result, y)
 //@   ensures [range]     allin(result, g.NumNodes()) && fresh(result)
 //@   assigns nothing
 
